@@ -4,7 +4,7 @@ from . import common as C
 from .gitsim import Sim
 from .world import World, SESSIONS
 
-GEN_FILES = ["GenWorkLog"]
+GEN_FILES = ["GenWorkLog", "GenCheckpoint"]
 DRIVERS = ["worklog"]
 PROPERTY_FILES = ["C03"]
 THEOREMS = ["C03_write_initial_exact", "C03_stale_initial_refuted", "C03_latest_entry_decides"]
